@@ -22,12 +22,7 @@ AIB = z3.ArraySort(I, B)
 AIA = z3.ArraySort(I, AII)
 
 
-class Unsupported(Exception):
-    """The function is outside the verified subset (never reported as a violation)."""
-
-    def __init__(self, msg, node=None):
-        Exception.__init__(self, msg)
-        self.node = node
+Unsupported = frontend.Unsupported  # "outside the verified subset" (never reported as a violation)
 
 
 # ---------------------------------------------------------------------------
